@@ -13,6 +13,10 @@
 (*                    hs, s, he, e]            q on listed weekdays else 0 *)
 (*   [k |-> "weekly", form |-> "dict", days |-> <<..>>, us |-> <<q..>>,..] *)
 (*   [k |-> "direct", days |-> <<day numbers>>, us |-> <<q..>>]            *)
+(*        (entries in the order they were configured - constructor, then   *)
+(*         set_units calls: the LAST entry of a day is the configured one) *)
+(*   [k |-> "func", fn |-> "half"|"orzero"|"plus1", c |-> expr]            *)
+(*        calendar.apply(f): f receives the value or None                  *)
 (*   [k |-> "fixed",  u |-> q, hs, s, he, e]                               *)
 (*   [k |-> "num",    u |-> q]        a number used as an operand          *)
 (*   [k |-> "op", op |-> "+"|"-"|"*"|"/"|"|", l |-> expr, r |-> expr]      *)
@@ -67,6 +71,11 @@ Eval(c, t) ==
             ELSE NoInfo
       [] c.k = "fixed" -> IF InValidity(c, t) THEN c.u ELSE Zero
       [] c.k = "num"   -> c.u
+      [] c.k = "func"  ->
+            LET v == Eval(c.c, t) IN
+            (CASE c.fn = "half"   -> IF IsInfo(v) THEN QDiv(v, <<2, 1>>) ELSE NoInfo
+               [] c.fn = "orzero" -> IF IsInfo(v) THEN v ELSE Zero
+               [] c.fn = "plus1"  -> IF IsInfo(v) THEN QAdd(v, <<1, 1>>) ELSE NoInfo)
       [] c.k = "op" ->
             LET a == Eval(c.l, t)
                 b == Eval(c.r, t)
@@ -83,6 +92,7 @@ Eval(c, t) ==
 (* the property excludes division by an operand that is zero on the date *)
 RECURSIVE DivByZeroAt(_, _)
 DivByZeroAt(c, t) ==
+    IF c.k = "func" THEN DivByZeroAt(c.c, t) ELSE
     c.k = "op" /\ ( \/ DivByZeroAt(c.l, t) \/ DivByZeroAt(c.r, t)
                     \/ (c.op = "/" /\ LET a == Eval(c.l, t) b == Eval(c.r, t)
                                       IN IsInfo(a) /\ IsInfo(b) /\ QZero(b)) )
@@ -100,6 +110,7 @@ Valid(c) ==
       [] c.k = "direct" -> \A i \in DOMAIN c.us : ~QNeg(c.us[i])
       [] c.k = "fixed"  -> ~QNeg(c.u) /\ ((c.hs /\ c.he) => c.s <= c.e)
       [] c.k = "num"    -> ~QNeg(c.u)
+      [] c.k = "func"   -> Valid(c.c)
       [] c.k = "op"     -> Valid(c.l) /\ Valid(c.r) /\ ~(c.op = "/" /\ c.r.k = "num" /\ QZero(c.r.u))
 
 ---------------------------------------------------------------------------
